@@ -32,9 +32,18 @@ def make_scratch(dst, src="/repo"):
 
 
 def _run_checks(m, scratch):
-    """run the check(s) of the variant's property (a list of properties is allowed); returns (worst return code, output)"""
+    """run the check(s) of the variant's property (a list of properties is allowed); returns (worst return code, output).
+    For a seeded fault (SEED.*) every listed check must report it: the result is 0 as soon as one of them is silent."""
     props = m["prop"] if isinstance(m["prop"], list) else [m["prop"]]
     rc, out = 0, ""
+    if m["id"].startswith("SEED.") and len(props) > 1:
+        rcs = []
+        for pr in props:
+            p = subprocess.run([os.path.join(VERIF, "check"), pr, "--root", scratch, "--tier", m.get("tier", "quick")],
+                               stdout=subprocess.PIPE, stderr=subprocess.STDOUT, text=True)
+            out += p.stdout
+            rcs.append(p.returncode)
+        return (1 if all(r == 1 for r in rcs) else (2 if 2 in rcs else 0)), out
     for pr in props:
         p = subprocess.run([os.path.join(VERIF, "check"), pr, "--root", scratch, "--tier", m.get("tier", "quick")],
                            stdout=subprocess.PIPE, stderr=subprocess.STDOUT, text=True)
@@ -116,7 +125,12 @@ def main(tier="quick", only=None, jobs=4, summary=None, tag="selftest"):
             files = set()
         keep = []
         for m in muts:
-            if isinstance(m["prop"], list) and len(m["prop"]) > 1:
+            if m["id"].startswith("SEED."):
+                # a seeded fault is judged by the check(s) it names, each on its own
+                if pr not in m["prop"]:
+                    continue
+                m = dict(m, prop=[pr])
+            elif isinstance(m["prop"], list) and len(m["prop"]) > 1:
                 own = m["id"].startswith("RF.%s-" % pr)
                 touched = set()
                 if m.get("patch") and files and not own:
